@@ -207,11 +207,13 @@ func ExecReader(shape string, rs io.ReadSeeker, limit int, setAPI func(string)) 
 		res.CtorErr = "nil reader"
 		return res
 	}
-	setAPI("Next")
+	cur := "Next"
+	setAPI(cur)
 	_, pan, capped = guard(func() error {
 		res.Rows = r.Rows()
 		for {
-			setAPI("Next") // also an API-call boundary (scheduling point in C13)
+			cur = "Next"
+			setAPI(cur) // also an API-call boundary (scheduling point in C13)
 			if !r.Next() {
 				break
 			}
@@ -219,7 +221,8 @@ func ExecReader(shape string, rs io.ReadSeeker, limit int, setAPI func(string)) 
 				res.Runaway = true
 				return nil
 			}
-			setAPI("Scan")
+			cur = "Scan"
+			setAPI(cur)
 			res.Recs = append(res.Recs, r.Scan())
 		}
 		if e := r.Error(); e != nil {
@@ -232,7 +235,7 @@ func ExecReader(shape string, rs io.ReadSeeker, limit int, setAPI func(string)) 
 		res.Hang = true
 	}
 	if pan != "" {
-		res.Panic, res.PanicAPI = pan, "Next"
+		res.Panic, res.PanicAPI = pan, cur
 	}
 	return res
 }
